@@ -15,6 +15,7 @@ import (
 	"fmt"
 	"os"
 	"runtime"
+	"runtime/debug"
 	"sort"
 	"strings"
 	"sync"
@@ -97,7 +98,10 @@ type Ctl struct {
 	// that ran last has blocked. For pipelines whose activity moves from goroutine to goroutine, where "the
 	// running goroutine" is not a useful notion of the default continuation.
 	StrictCost bool
+	Arr        []string // arrival log (VERIF_DIVDEBUG)
 }
+
+var arrDebug = os.Getenv("VERIF_DIVDEBUG") != ""
 
 // Goid returns the id of the calling goroutine.
 func Goid() int64 { return goid() }
@@ -131,6 +135,9 @@ func (c *Ctl) Choose(key, label string, free bool, n int, altCost int) int {
 	c.seq++
 	p.seq = c.seq
 	c.parked = append(c.parked, p)
+	if arrDebug {
+		c.Arr = append(c.Arr, fmt.Sprintf("%d g%d %s@%s t=%v", p.seq, p.gid, key, label, time.Since(c.t0)))
+	}
 	w := c.wake
 	c.mu.Unlock()
 	if w != nil {
@@ -233,7 +240,7 @@ func (c *Ctl) Loop(done func() bool) {
 	c.mu.Unlock()
 	c.t0 = time.Now()
 	for c.Steps = 0; c.Steps < c.MaxSteps; {
-		heartbeat.Add(1)
+		beat()
 		synctest.Wait()
 		c.mu.Lock()
 		stopped := c.stopped
@@ -433,13 +440,51 @@ type execResult struct {
 	out Outcome
 }
 
-var heartbeat atomic.Int64
+// gcBetweenExecutions keeps the garbage collector out of the executions. A collection that starts while a goroutine
+// runs between two decisions preempts that goroutine at its next function prologue and requeues it on the GLOBAL run
+// queue, behind every goroutine that is runnable on the local one: the order of two goroutines woken by the same
+// decision then depends on where the collector happened to start, which is nondeterminism the explorer does not own
+// (replayed prefixes diverged a few times per 100k executions, more under machine load). The automatic collector is
+// switched off and a full collection is run here, between two executions, whenever the heap has doubled.
+var gcState struct {
+	off      bool
+	n        int
+	lastHeap uint64
+}
+
+func gcBetweenExecutions() {
+	if !gcState.off {
+		gcState.off = true
+		debug.SetGCPercent(-1)
+		gcState.lastHeap = 64 << 20
+	}
+	gcState.n++
+	if gcState.n%8 != 0 {
+		return
+	}
+	var ms runtime.MemStats
+	runtime.ReadMemStats(&ms)
+	if ms.HeapAlloc > 2*gcState.lastHeap {
+		runtime.GC()
+		runtime.ReadMemStats(&ms)
+		gcState.lastHeap = ms.HeapAlloc
+		if gcState.lastHeap < 64<<20 {
+			gcState.lastHeap = 64 << 20
+		}
+	}
+}
+
 var currentExec atomic.Value // string
 
 // RunOnce executes one schedule (prefix then defaults) in a fresh bubble.
 func (e *Explorer) RunOnce(sc *Scenario, prefix []int, expect [][]string) (res execResult) {
 	ctl := &Ctl{prefix: prefix, expect: expect, Quantum: e.Quantum, Horizon: e.Horizon, MaxSteps: e.MaxSteps, IdleResets: e.IdleResets, StrictCost: e.StrictCost, Free: e.Free}
-	currentExec.Store(fmt.Sprintf("%s %v", sc.Name, prefix))
+	if !e.Free {
+		gcBetweenExecutions()
+	}
+	ce := fmt.Sprintf("%s %v", sc.Name, prefix)
+	currentExec.Store(ce)
+	setWatchdogExec(ce)
 	if e.OnExec != nil {
 		e.OnExec(sc, prefix)
 	}
@@ -466,6 +511,11 @@ func (e *Explorer) runStable(sc *Scenario, prefix []int, expect [][]string) (exe
 	for attempt := 0; attempt < 12; attempt++ {
 		r = e.RunOnce(sc, prefix, expect)
 		if !r.ctl.Diverged {
+			if attempt > 0 && arrDebug && e.Stats.Retries <= 5 {
+				for _, l := range r.ctl.Arr {
+					fmt.Printf("  ARR ok   %s\n", l)
+				}
+			}
 			return r, true
 		}
 		e.Stats.Retries++
@@ -480,6 +530,9 @@ func (e *Explorer) runStable(sc *Scenario, prefix []int, expect [][]string) (exe
 				}
 				for _, l := range r.ctl.Log {
 					fmt.Printf("  DIV log %s\n", l)
+				}
+				for _, l := range r.ctl.Arr {
+					fmt.Printf("  ARR div  %s\n", l)
 				}
 			}
 		}
@@ -703,68 +756,6 @@ func traceLabels(tr []Decision) [][]string {
 
 // (branch counter for sharding)
 func init() { _ = os.Getpid }
-
-// StartWatchdog starts (outside any bubble) a goroutine that kills the process when the controller
-// makes no progress for the given real time: a goroutine spinning or blocked on a mutex keeps
-// synctest.Wait from returning.
-func StartWatchdog(limit time.Duration) {
-	go func() {
-		last := heartbeat.Load()
-		lastChange := time.Now()
-		var ru0 float64
-		for {
-			time.Sleep(time.Second)
-			h := heartbeat.Load()
-			if h != last {
-				last, lastChange = h, time.Now()
-				ru0 = cpuSeconds()
-				continue
-			}
-			if h == 0 || time.Since(lastChange) < limit {
-				continue
-			}
-			cpu := cpuSeconds() - ru0
-			kind := "blocked"
-			if cpu > 0.5*time.Since(lastChange).Seconds() {
-				kind = "busy-spin"
-			}
-			buf := make([]byte, 256<<20)
-			n := runtime.Stack(buf, true)
-			// print the goroutines of the youngest bubble first (the execution that stalls), then a bounded part of the rest
-			all := strings.Split(string(buf[:n]), "\n\n")
-			maxB := -1
-			bubbleOf := func(g string) int {
-				i := strings.Index(g, "synctest bubble ")
-				if i < 0 {
-					return -1
-				}
-				b := 0
-				for _, c := range g[i+len("synctest bubble "):] {
-					if c < '0' || c > '9' {
-						break
-					}
-					b = b*10 + int(c-'0')
-				}
-				return b
-			}
-			for _, g := range all {
-				if b := bubbleOf(g); b > maxB {
-					maxB = b
-				}
-			}
-			var cur, rest []string
-			for _, g := range all {
-				if b := bubbleOf(g); b == maxB || b == -1 {
-					cur = append(cur, g)
-				} else if len(rest) < 200 {
-					rest = append(rest, g)
-				}
-			}
-			fmt.Printf("VERIF-STALL kind=%s cpu=%.1fs exec=%v goroutines=%d youngest-bubble=%d\n%s\n\n-- older bubbles (first 200) --\n%s\n", kind, cpu, currentExec.Load(), len(all), maxB, strings.Join(cur, "\n\n"), strings.Join(rest, "\n\n"))
-			os.Exit(4)
-		}
-	}()
-}
 
 // ReplayOnce runs one recorded choice list (no exploration).
 func (e *Explorer) ReplayOnce(sc *Scenario, choices []int) (Outcome, bool) {
